@@ -32,8 +32,16 @@ pub fn ref_lambda(ids: &[u8], i: usize) -> RS {
     num * Option::<RS>::from(den.invert()).expect("distinct ids")
 }
 
-fn corrupt_payload(b: &mut [u8]) {
-    // not a compressed point encoding: compression flag cleared, x = 0x00..00
+/// an entry with ok = FALSE stands for every payload no decoder may accept; variant 0: not a compressed point
+/// encoding (all zero); variant 1: the honest point plus a point of order 3 (on the curve, outside the subgroup -
+/// G1-sized payloads; for G2-sized ones the honest point plus a cofactor-torsion point)
+fn corrupt_payload_v(b: &mut [u8], variant: u8) {
+    if variant == 1 && b.len() > 1 {
+        let honest = b[1..].to_vec();
+        let shifted = crate::codecs::points::shifted_order3(&honest).unwrap_or_else(|| crate::codecs::points::shifted(&honest));
+        b[1..].copy_from_slice(&shifted);
+        return;
+    }
     for x in b.iter_mut().skip(1) {
         *x = 0;
     }
@@ -188,6 +196,23 @@ where
                 Ok(s) => s,
                 Err(e) => return Outcome::fail(json!({}), format!("split refused: {e}")),
             };
+            // undecodable payloads in two classes (see corrupt_payload_v); the blank container (identifier 0) is all zero
+            let has_bad = geta(v, "entries").iter().any(|e| !getb(e, "ok") && geti(e, "id") != 0);
+            if has_bad && v.get("payload_variant").is_none() {
+                let mut total = Outcome::pass(json!({}));
+                for pv in [0u8, 1] {
+                    let mut v2 = v.clone();
+                    v2["payload_variant"] = json!(pv);
+                    let o = run::<C, R>(&v2, conc, tables);
+                    if !o.ok {
+                        return o;
+                    }
+                    total.extra += o.extra + 1;
+                    total.obs = o.obs;
+                }
+                return total;
+            }
+            let pv = v.get("payload_variant").and_then(|x| x.as_u64()).unwrap_or(0) as u8;
             let kind = gets(v, "kind");
             let msg = lib.msg::<C>(&v["msg"]);
             let entries: Vec<(u8, usize, bool, String)> = geta(v, "entries").iter().map(entry_fields).collect();
@@ -236,7 +261,7 @@ where
                             let mut b = Vec::<u8>::from(&p);
                             b[0] = *id;
                             if !*ok {
-                                corrupt_payload(&mut b);
+                                corrupt_payload_v(&mut b, if *id == 0 { 0 } else { pv });
                             }
                             p = PublicKeyShare::<C>::try_from(b.as_slice()).expect("share container");
                             p
@@ -287,7 +312,7 @@ where
                         let mut b = Vec::<u8>::from(&s);
                         b[1] = *id;
                         if !*ok {
-                            corrupt_payload(&mut b[1..]);
+                            corrupt_payload_v(&mut b[1..], if *id == 0 { 0 } else { pv });
                         }
                         shares.push(SignatureShare::<C>::try_from(b.as_slice()).expect("share container"));
                     }
